@@ -35,6 +35,12 @@
 //   ndset <dtype> <shape...> ; <values...> ; <index...> ; <v>    NDArray::set<T>(const NDSize &, v), dump by get<T>(size_t)
 //   applypoly <alias 0|1> <origin> ; <coeffs...> ; <inputs...>   util::applyPolynomial directly (alias: output == input)
 //   str2dt <s:hex>                                 string_to_data_type, printed with data_type_to_string
+// handle routes: a line may start with @<h>; the command then runs through that handle to the SAME array
+//   @c the creating handle (default)         @p a second handle fetched by name right after creation and "peeked"
+//   @n fetched now by name                   @i fetched now by id              @x fetched now by index
+//   @b a stored handle obtained through a second Block handle (peeked)        @B second Block fetched now, array fetched now
+//   (peek = dataExtent(), dataType(), one element read, polynomCoefficients(), expansionOrigin(): the handle has seen the
+//    early state; after `reopen` the stored handles are fetched and peeked again)
 // values: Bool 0/1, integers decimal, Float f:<8 hex>, Double d:<16 hex>, String s:<hex>
 #include "common.hpp"
 #include <hdf5.h>
@@ -53,7 +59,12 @@ static std::string workdir;
 struct Session {
     nix::File file;
     nix::Block block;
-    nix::DataArray arr;
+    nix::DataArray arr;           // the handle the current line uses
+    nix::DataArray h_create;      // @c
+    nix::DataArray h_peek;        // @p
+    nix::DataArray h_block2;      // @b
+    nix::Block block2;
+    std::string id;
     DataType dt = DataType::Nothing;
     std::string path;
     bool fileauto = false;
@@ -208,10 +219,49 @@ static Buf parse_buf(DataType dt, const std::vector<std::string> &vals, size_t n
     return b;
 }
 
+// a handle that has seen the state of the array at this moment
+static void peek(nix::DataArray &h) {
+    if (!h) return;
+    try {
+        NDSize e = h.dataExtent();
+        DataType dt = h.dataType();
+        (void) h.polynomCoefficients();
+        (void) h.expansionOrigin();
+        if (e.size() > 0 && e.nelms() > 0 && dt != DataType::Nothing) {
+            Buf b(dt, 1);
+            h.getDataDirect(dt, b.ptr(), NDSize(e.size(), 1), NDSize(e.size(), 0));
+        }
+    } catch (...) {}
+}
+
+// (re)establish the stored handles after the array came into being / the file was reopened
+static void fetch_handles(bool keep_creator) {
+    if (!keep_creator) S.h_create = S.block.getDataArray("a");
+    S.arr = S.h_create;
+    S.id = S.h_create ? S.h_create.id() : std::string();
+    S.h_peek = S.block.getDataArray("a");
+    peek(S.h_peek);
+    S.block2 = S.file.getBlock("b");
+    S.h_block2 = S.block2.getDataArray("a");
+    peek(S.h_block2);
+}
+
+static nix::DataArray pick_handle(const std::string &h) {
+    if (h == "c") return S.h_create;
+    if (h == "p") return S.h_peek;
+    if (h == "b") return S.h_block2;
+    if (!S.block) return nix::DataArray();
+    if (h == "n") return S.block.getDataArray("a");
+    if (h == "i") return S.id.empty() ? S.block.getDataArray("a") : S.block.getDataArray(S.id);
+    if (h == "x") return S.block.dataArrayCount() > 0 ? S.block.getDataArray(static_cast<size_t>(0)) : nix::DataArray();
+    if (h == "B") { nix::Block b2 = S.file.getBlock("b"); return b2.getDataArray("a"); }
+    throw std::logic_error("bad handle @" + h);
+}
+
 static void open_array(nix::FileMode m) {
     S.file = nix::File::open(S.path, m, "hdf5", S.fileauto ? nix::Compression::DeflateNormal : nix::Compression::Auto);
     S.block = S.file.getBlock("b");
-    S.arr = S.block.getDataArray("a");
+    fetch_handles(false);
 }
 
 template<typename T> static std::string readvec_t() {
@@ -440,10 +490,13 @@ static std::string tcreate(const std::vector<std::string> &t) {
                              S.fileauto ? nix::Compression::DeflateNormal : nix::Compression::Auto);
     S.block = S.file.createBlock("b", "t");
     try {
-        return typed_call(k, elem, t[4], sec[0], &sec[1]);
+        std::string r = typed_call(k, elem, t[4], sec[0], &sec[1]);
+        S.h_create = S.arr;
+        fetch_handles(true);
+        return r;
     } catch (...) {
         // the template lost its handle: whatever it left behind is reachable by name
-        try { S.arr = S.block.getDataArray("a"); } catch (...) {}
+        try { fetch_handles(false); } catch (...) {}
         throw;
     }
 }
@@ -489,7 +542,20 @@ static std::string nd_tool_d(const std::vector<std::string> &t) {
     }
 }
 
-static std::string handle(const std::vector<std::string> &t) {
+static std::string handle_cmd(const std::vector<std::string> &t);
+
+static std::string handle(const std::vector<std::string> &t_in) {
+    if (t_in[0][0] == '@') {
+        std::vector<std::string> t(t_in.begin() + 1, t_in.end());
+        if (t.empty()) throw std::logic_error("handle without a command");
+        S.arr = pick_handle(t_in[0].substr(1));
+        return handle_cmd(t);
+    }
+    if (t_in[0] != "create" && t_in[0] != "tcreate" && t_in[0] != "reopen") S.arr = S.h_create;
+    return handle_cmd(t_in);
+}
+
+static std::string handle_cmd(const std::vector<std::string> &t) {
     const std::string &cmd = t[0];
     if (cmd == "tsetall" || cmd == "tset" || cmd == "tgetall" || cmd == "tget" || cmd == "tgetat") return typed(t);
     if (cmd == "tcreate") return tcreate(t);
@@ -541,6 +607,8 @@ static std::string handle(const std::vector<std::string> &t) {
                                  S.fileauto ? nix::Compression::DeflateNormal : nix::Compression::Auto);
         S.block = S.file.createBlock("b", "t");
         S.arr = S.block.createDataArray("a", "t", S.dt, to_ndsize(sh), ac);
+        S.h_create = S.arr;
+        fetch_handles(true);
         return "-";
     }
     if (cmd == "reopen") {
